@@ -565,6 +565,24 @@ func (s *service) verifyBlock(b dbft.Block[util.Uint256]) bool {
 		return false
 	}
 
+	// The scratch pool used below doesn't fail on a transaction that conflicts
+	// with a pooled one, it replaces it if the fee allows that.
+	var inBlock = make(map[util.Uint256]struct{}, len(coreb.Transactions))
+	for _, tx := range coreb.Transactions {
+		inBlock[tx.Hash()] = struct{}{}
+	}
+	for _, tx := range coreb.Transactions {
+		for _, attr := range tx.GetAttributes(transaction.ConflictsT) {
+			h := attr.Value.(*transaction.Conflicts).Hash
+			if _, ok := inBlock[h]; ok {
+				s.log.Warn("conflicting transactions in proposed block",
+					zap.Stringer("hash", tx.Hash()),
+					zap.Stringer("conflict", h))
+				return false
+			}
+		}
+	}
+
 	var fee int64
 	var pool = mempool.New(len(coreb.Transactions), false, nil)
 	var mainPool = s.Chain.GetMemPool()
